@@ -6,12 +6,13 @@ From SygmaV Require Proofs.C04.
 Local Open Scope Z_scope.
 
 Inductive case :=
-| Single (p : path) (head blk conf : Z) (impl_handled : bool)
+(* impl_blocks: the block numbers the implementation handed to processing (empty = rejected) *)
+| Single (p : path) (head blk conf : Z) (impl_blocks : list Z)
 | Hist (start : option Z) (conf : Z) (heads : list Z) (impl_obs : list (N * Z))
 (* a sequence of guard evaluations on ONE set of long-lived handler objects that share the
    configured confirmation depth, as app.go wires them: the guards must stay what they are however
    often and in whatever order they have been used before *)
-| Seq (conf : Z) (ops : list (path * Z * Z)) (impl_handled : list bool).
+| Seq (conf : Z) (ops : list (path * Z * Z)) (impl_blocks : list (list Z)).
 
 Fixpoint obs_eqb (a b : list (N * Z)) : bool :=
   match a, b with
@@ -20,7 +21,14 @@ Fixpoint obs_eqb (a b : list (N * Z)) : bool :=
   | _, _ => false
   end.
 
-Fixpoint seq_all (f : path -> Z -> Z -> bool -> bool) (ops : list (path * Z * Z)) (obs : list bool) : bool :=
+Fixpoint zs_eqb (a b : list Z) : bool :=
+  match a, b with
+  | [], [] => true
+  | x :: a', y :: b' => Z.eqb x y && zs_eqb a' b'
+  | _, _ => false
+  end.
+
+Fixpoint seq_all (f : path -> Z -> Z -> list Z -> bool) (ops : list (path * Z * Z)) (obs : list (list Z)) : bool :=
   match ops, obs with
   | [], [] => true
   | (p, head, blk) :: ops', h :: obs' => f p head blk h && seq_all f ops' obs'
@@ -29,9 +37,11 @@ Fixpoint seq_all (f : path -> Z -> Z -> bool -> bool) (ops : list (path * Z * Z)
 
 Definition agree (c : case) : bool :=
   match c with
-  | Single p head blk conf h => Bool.eqb (accept p head blk conf) h
-  | Hist st conf heads obs => obs_eqb (scan st conf 0%N heads) obs
-  | Seq conf ops obs => seq_all (fun p head blk h => Bool.eqb (accept p head blk conf) h) ops obs
+  (* the generated inputs are values the Go types of that path can hold *)
+  | Single p head blk conf h => in_domain p head blk && zs_eqb (processed p head blk conf) h
+  | Hist st conf heads obs => forallb in_int64 heads && obs_eqb (scan st conf 0%N heads) obs
+  | Seq conf ops obs =>
+      seq_all (fun p head blk h => in_domain p head blk && zs_eqb (processed p head blk conf) h) ops obs
   end.
 
 Definition judge (c : case) : bool :=
@@ -56,7 +66,7 @@ Definition tag (c : case) : N :=
 (* the judge accepts the model's own outputs on every sequence *)
 Lemma seq_judge_accepts_model conf ops :
   seq_all (fun p head blk h => single_ok p head blk conf h) ops
-          (map (fun o => match o with (p, head, blk) => accept p head blk conf end) ops) = true.
+          (map (fun o => match o with (p, head, blk) => processed p head blk conf end) ops) = true.
 Proof.
   induction ops as [|[[p head] blk] ops IH]; cbn; [reflexivity|].
   rewrite Proofs.C04.single_ok_model. exact IH.
